@@ -15,6 +15,7 @@ package main
 
 import (
 	"bytes"
+	"errors"
 	"compress/flate"
 	"compress/gzip"
 	"encoding/binary"
@@ -28,6 +29,7 @@ import (
 	"sort"
 	"strconv"
 	"strings"
+	"sync"
 	"sync/atomic"
 	"time"
 	"unsafe"
@@ -53,6 +55,7 @@ type config struct {
 	handler int // 0: none; 1: one that accepts everything; 2: one that declines; 3: one that declines, then one that accepts
 	fresh   bool
 	wire    bool // the network write is a step boundary of its own (transport wrapped, yield point "wire")
+	store   string // "" (the store works) | fail1 (the first Store after the set-up fails) | failall (every Store fails)
 }
 
 func (c config) String() string {
@@ -63,10 +66,14 @@ func (c config) String() string {
 	if c.warnCap == -2 {
 		w = "live"
 	}
+	x := ""
 	if c.wire {
-		return fmt.Sprintf("warn=%s handler=%d fresh=%s wire=1", w, c.handler, b01(c.fresh))
+		x += " wire=1"
 	}
-	return fmt.Sprintf("warn=%s handler=%d fresh=%s", w, c.handler, b01(c.fresh))
+	if c.store != "" {
+		x += " store=" + c.store
+	}
+	return fmt.Sprintf("warn=%s handler=%d fresh=%s", w, c.handler, b01(c.fresh)) + x
 }
 
 func b01(b bool) string {
@@ -97,6 +104,8 @@ func parseConfig(tok []string) config {
 			c.fresh = kv[1] == "1"
 		case "wire":
 			c.wire = kv[1] == "1"
+		case "store":
+			c.store = kv[1]
 		}
 	}
 	return c
@@ -153,6 +162,7 @@ type run struct {
 	rx      string          // actor name of the current receive loop
 	rxSeen  map[string]bool // every receive loop actor seen so far
 	inRecv  map[string]bool // callers that passed "prerecv"
+	store   *faultStore
 	sawWire map[string]bool // senders whose frame was observed at "wire" (configuration wire=1)
 	nwire   int
 	nearly  int  // channel sends tried before the owner listened (doEarly)
@@ -227,6 +237,48 @@ func (r *run) hook(point string, id int64) {
 	if atomic.LoadInt32(&r.controlled) == 1 {
 		r.sc.Hook(point, id)
 	}
+}
+
+// faultStore is the session storage of every run: the file loader of the library behind a counter, and - configuration
+// store=fail1 / store=failall - behind a fault plan: the first Store after the set-up, or every one, fails (a read-only
+// file system, a full disk, a storage service that is away).  SaveSession's error is only reported (Warnings); whatever
+// else the handler of the message has to do - wake the rejected caller, go on with the container - must still happen,
+// and a later announcement of the same salt must be stored again.
+type faultStore struct {
+	inner    session.SessionLoader
+	mu       sync.Mutex
+	armed    bool
+	plan     string
+	calls    int
+	failed   int
+	lastSalt int64
+	hasLast  bool
+}
+
+var errInjectedStore = errors.New("verif: the session storage fails (injected)")
+
+func (f *faultStore) Load() (*session.Session, error) { return f.inner.Load() }
+
+func (f *faultStore) Store(s *session.Session) error {
+	f.mu.Lock()
+	defer f.mu.Unlock()
+	if f.armed {
+		f.calls++
+		f.lastSalt, f.hasLast = s.Salt, true
+		if f.plan == "failall" || (f.plan == "fail1" && f.calls == 1) {
+			f.failed++
+			return errInjectedStore
+		}
+	}
+	return f.inner.Store(s)
+}
+
+func (f *faultStore) arm() { f.mu.Lock(); f.armed = true; f.mu.Unlock() }
+
+func (f *faultStore) state() (calls int, last int64, has bool) {
+	f.mu.Lock()
+	defer f.mu.Unlock()
+	return f.calls, f.lastSalt, f.hasLast
 }
 
 // wireTransport makes the network write itself a scheduling point (configuration wire=1): the bytes are out - the
@@ -323,7 +375,8 @@ func (r *run) connect(idx, attempt int) bool {
 			trouble("front: %v", e)
 		}
 		r.front = fr
-		cl, err = mtproto.NewMTProto(mtproto.Config{AuthKeyFile: r.sess, ServerHost: fr.Addr(), PublicKey: &fr.priv.PublicKey})
+		r.store = &faultStore{inner: session.NewFromFile(r.sess), plan: r.cfg.store}
+		cl, err = mtproto.NewMTProto(mtproto.Config{SessionStorage: r.store, ServerHost: fr.Addr(), PublicKey: &fr.priv.PublicKey})
 	} else {
 		srv, e := refserver.New(refserver.Options{Seed: uint64(idx) + 1})
 		if e != nil {
@@ -333,7 +386,8 @@ func (r *run) connect(idx, attempt int) bool {
 		if e := srv.WriteSession(r.sess); e != nil {
 			trouble("writing session: %v", e)
 		}
-		cl, err = mtproto.NewMTProto(mtproto.Config{AuthKeyFile: r.sess, ServerHost: srv.Addr()})
+		r.store = &faultStore{inner: session.NewFromFile(r.sess), plan: r.cfg.store}
+		cl, err = mtproto.NewMTProto(mtproto.Config{SessionStorage: r.store, ServerHost: srv.Addr()})
 	}
 	if err != nil {
 		trouble("NewMTProto: %v", err)
@@ -408,6 +462,7 @@ func (r *run) connect(idx, attempt int) bool {
 		trouble("%v", err)
 	}
 	r.conns = 1
+	r.store.arm()
 	r.wrapTransport()
 	_, salt, _, _ := r.cl.VerifSnapshot()
 	r.initSalt = salt
@@ -564,11 +619,20 @@ func (r *run) warnLen() int {
 
 // storedSalt reads the salt in the session file (what SaveSession wrote last).
 func (r *run) storedSalt() string {
+	calls, last, has := r.store.state()
+	n := calls
+	if r.cfg.fresh {
+		n++ // the key exchange of the set-up stored once
+	}
+	if r.cfg.store != "" && has {
+		// a storage that fails: what the client last ASKED to be stored (the model's store is the sequence of SaveSession calls)
+		return r.showSalt(last) + "#" + strconv.Itoa(n)
+	}
 	s, err := session.NewFromFile(r.sess).Load()
 	if err != nil || s == nil {
-		return "none"
+		return "none#" + strconv.Itoa(n)
 	}
-	return r.showSalt(s.Salt)
+	return r.showSalt(s.Salt) + "#" + strconv.Itoa(n)
 }
 
 func (r *run) rxState() string {
@@ -1615,7 +1679,7 @@ func (r *run) finish() {
 		}
 		// the adopted salt is in the session store
 		_, salt, _, _ := r.cl.VerifSnapshot()
-		if len(r.saltsSent) > 0 {
+		if len(r.saltsSent) > 0 && r.cfg.store == "" {
 			if s, err := session.NewFromFile(r.sess).Load(); err != nil || s == nil || s.Salt != salt {
 				r.viol("C11", "salt-rotation:salt-not-saved", "the session store does not hold the salt the client uses after the rotation")
 			}
